@@ -170,7 +170,14 @@ def consistent(path: Path) -> bool:
     """False if the same (side-effect free looking) condition text is decided both ways
     with no intervening assignment to any name it mentions."""
     decided = {}
+    entered = set()
     for step in path:
+        if step[0] == "for" and isinstance(step[1], (ast.For, ast.AsyncFor)):
+            it = step[1].iter
+            if step[2]:
+                entered.add(id(step[1]))
+            elif id(step[1]) not in entered and isinstance(it, (ast.Tuple, ast.List)) and it.elts:
+                return False  # a loop over a non-empty literal is never skipped
         if step[0] == "cond":
             key = unparse(step[1])
             if key in decided and decided[key] != step[2]:
